@@ -227,8 +227,32 @@ def F16():
     return None
 
 
+def F17():
+    # a note between two partial deals of the flop must not start a new street in the protocol output
+    from pokerkit import HandHistory
+    g = NoLimitTexasHoldem((A.ANTE_POSTING, A.BET_COLLECTION, A.BLIND_OR_STRADDLE_POSTING, A.HOLE_CARDS_SHOWING_OR_MUCKING,
+                            A.HAND_KILLING, A.CHIPS_PUSHING, A.CHIPS_PULLING), True, 0, (1, 2), 2)
+    s = g((200, 200), 2)
+    s.deal_hole('AsKs'); s.deal_hole('QhQd')
+    s.complete_bet_or_raise_to(6); s.check_or_call()
+    s.burn_card('2c'); s.deal_board('7h'); s.no_operate(commentary='dealer fumbles'); s.deal_board('8h9h')
+    for c, b in (('3c', 'Td'), ('4c', '2d'), (None, None)):
+        s.check_or_call(); s.check_or_call()
+        if c:
+            s.burn_card(c); s.deal_board(b)
+    hh = HandHistory.from_game_state(g, s, compression_status=False)
+    line = hh.to_pluribus_protocol(1)
+    last = list(hh.to_acpc_protocol(0, 1))[-1][1].strip()
+    want = 'STATE:1:r6c/cc/cc/cc:AsKs|QhQd/7h8h9h/Td/2d:-6|6:p1|p2'
+    if line != want:
+        return f'Pluribus line {line!r}, the hand played is {want!r}'
+    if last != 'MATCHSTATE:0:1:r6c/cc/cc/cc:AsKs|QhQd/7h8h9h/Td/2d':
+        return f'last ACPC message {last!r}'
+    return None
+
+
 if __name__ == '__main__':
-    names = sys.argv[1:] or ['F1', 'F2', 'F3', 'F4', 'F5', 'F6', 'F7', 'F8', 'F9', 'F10', 'F14', 'F15', 'F16']
+    names = sys.argv[1:] or ['F1', 'F2', 'F3', 'F4', 'F5', 'F6', 'F7', 'F8', 'F9', 'F10', 'F14', 'F15', 'F16', 'F17']
     bad = 0
     for n in names:
         try:
